@@ -6,6 +6,7 @@ import ast
 import networkx as nx
 
 from ..cfg import CFG, ENTRY, EXIT, RAISE
+from ..algebra import is_const
 from ..interp import _strip_not, Interp, SELF, contains, show, strip_typed, walk
 from ..model import AnalysisError, ClassInfo, FuncInfo, dotted
 from . import util
@@ -441,6 +442,10 @@ REJECTIONS = [
      lambda c, t, p: strip_typed(c)[0] == "cmp" and strip_typed(c)[1] == "in" and show(strip_typed(c)[2]) == "dim" and t is False
      and strip_typed(c)[3][0] in ("tuple", "list", "set") and sorted(map(repr, strip_typed(c)[3][1])) == [repr(("const", 2)), repr(("const", 3))],
      "an unsupported number of levels builds a Hamiltonian with 2- or 3-level operator blocks"),
+    ("emu_base.jump_lindblad_operators.get_lindblad_operators", None, "a non-zero hyperfine dephasing rate",
+     lambda c, t, p: strip_typed(c)[0] == "cmp" and strip_typed(c)[1] == "==" and "hyperfine_dephasing_rate" in show(c)
+     and is_const(strip_typed(c)[3], 0) and t is False,
+     "hyperfine dephasing is silently ignored (only the Rydberg dephasing operators are built)"),
     ("emu_sv.sv_backend_impl.SVBackendImpl.__init__", "emu_sv.sv_backend_impl.SVBackendImpl",
      "a Hamiltonian other than Rydberg",
      lambda c, t, p: strip_typed(c)[0] == "cmp" and strip_typed(c)[1] == "==" and "hamiltonian_type" in show(c)
